@@ -67,7 +67,7 @@ theorem C11_lazy_iterator_only_up (t : TA) (up : Nat → Bool) (it : LIter) (x :
         simp only at h
         injection h with h
         subst h
-        refine ⟨(scanPos_host up it.given _ _ _ hs).1, ?_⟩
+        refine ⟨(scanPos_host up _ _ _ _ hs).1, ?_⟩
         simp only [hs]
       · rename_i e rest hne hs
         simp only at h
@@ -78,7 +78,22 @@ theorem C11_lazy_iterator_only_up (t : TA) (up : Nat → Bool) (it : LIter) (x :
 different -/
 def LzInv (it : LIter) : Prop := (it.given ++ (it.q1 ++ it.q2)).Nodup
 
-theorem LzInv_next (t : TA) (up : Nat → Bool) (it : LIter) (hi : LzInv it) : LzInv (t.nextL up it).2.1 := by
+theorem nextL_plain (t : TA) (up : Nat → Bool) (it : LIter) : (t.nextL up it).2.1.plain = it.plain := by
+  unfold TA.nextL
+  split
+  · rfl
+  · split
+    · rfl
+    · simp only []
+      generalize scanPos up (if it.plain = true then [] else it.given)
+          (match it.fb with
+            | some ps => (t, ps)
+            | none => ({ t with pol := t.pol.bump }, t.pol.positions)).2 = p
+      obtain ⟨e, rest⟩ := p
+      cases e <;> rfl
+
+theorem LzInv_next (t : TA) (up : Nat → Bool) (it : LIter) (hpl : it.plain = false) (hi : LzInv it) :
+    LzInv (t.nextL up it).2.1 := by
   unfold LzInv at hi ⊢
   unfold TA.nextL
   split
@@ -112,43 +127,147 @@ theorem LzInv_next (t : TA) (up : Nat → Bool) (it : LIter) (hi : LzInv it) : L
         subst e
         simp only [List.mem_singleton] at hb
         subst hb
-        exact (scanPos_host up it.given _ _ _ hs).2 ha
+        have := (scanPos_host up _ _ _ _ hs).2
+        rw [hpl] at this
+        exact this ha
       · simp only [List.append_nil]
         exact hg
 
-/-- NO HOST TWICE, whatever happens between the calls: an iterator opened by `Pick` in ANY policy state on a replica
-list without duplicates (tables with duplicate-free lists, the shuffle a permutation), then called any number of times,
-EVERY call in an arbitrary policy state and under an arbitrary up/down assignment of the host objects (any
-interleaving with topology calls, state changes and other iterators), never offers a host twice. -/
-theorem C11_lazy_iterator_no_host_twice (t0 : TA) (σ : List Host → List Host) (hσ : ∀ l, (σ l).Perm l)
-    (rk : Option (Nat × Nat)) (hrep : ∀ e ∈ t0.replicas, ∀ f ∈ e.2, f.2.Nodup) (calls : List (TA × (Nat → Bool))) :
-    (calls.foldl (fun it c => (c.1.nextL c.2 it).2.1) (t0.openL σ rk).2).given.Nodup := by
-  have hopen : LzInv (t0.openL σ rk).2 := by
-    unfold LzInv
-    have plain : (t0.openL σ rk).2 = ⟨[], [], [], some t0.pol.positions⟩ →
-        ((t0.openL σ rk).2.given ++ ((t0.openL σ rk).2.q1 ++ (t0.openL σ rk).2.q2)).Nodup := by
-      intro e; rw [e]; simp
-    cases rk with
-    | none => exact plain rfl
-    | some kt =>
-      obtain ⟨ks, tok⟩ := kt
-      cases hr : t0.replicasFor ks tok with
-      | noRing => exact plain (by simp only [TA.openL, hr])
-      | emptyRing => exact plain (by simp only [TA.openL, hr])
-      | hosts l ft =>
-        have hreps : l.Nodup := replicasFor_nodup t0 hrep ks tok l ft hr
-        have hreps' : (if (ft && t0.shuffle) = true then σ l else l).Nodup := by
-          split
-          · exact (hσ l).nodup_iff.mpr hreps
-          · exact hreps
-        have := taHead_nodup t0.pol.tier t0.pol.maxTier (fun _ => true) t0.nonlocal _ hreps'
-        simp only [TA.openL, hr, List.nil_append]
-        exact this
-  suffices h : ∀ it, LzInv it → LzInv (calls.foldl (fun it c => (c.1.nextL c.2 it).2.1) it) from
-    (List.nodup_append.mp (h _ hopen)).1
+/-! a query handed to the fallback policy as it is: the iterator is the fallback policy's own, which keeps no `used`
+map - what it offers is a subsequence of the hosts at the positions of its ONE snapshot -/
+
+theorem scanPos_nil_sub (up : Nat → Bool) (ps rest : List (Option Host)) (x : Host)
+    (h : scanPos up [] ps = (.host x, rest)) : (x :: rest.filterMap id).Sublist (ps.filterMap id) := by
+  induction ps with
+  | nil => simp [scanPos] at h
+  | cons a t ih =>
+    cases a with
+    | none => simp [scanPos] at h
+    | some y =>
+      unfold scanPos at h
+      split at h
+      · injection h with e1 e2
+        injection e1 with e1
+        subst e1 e2
+        simp
+      · have := ih h
+        simp only [List.filterMap_cons, id_eq]
+        exact this.trans (List.sublist_cons_self _ _)
+
+theorem scanPos_rest_sub (up : Nat → Bool) (used : List Host) (ps : List (Option Host)) :
+    ((scanPos up used ps).2.filterMap id).Sublist (ps.filterMap id) := by
+  induction ps with
+  | nil => simp [scanPos]
+  | cons a t ih =>
+    cases a with
+    | none => simp [scanPos]
+    | some y =>
+      unfold scanPos
+      split
+      · simp
+      · simp only [List.filterMap_cons, id_eq]
+        exact ih.trans (List.sublist_cons_self _ _)
+
+/-- the plain iterator: no replicas to look at, fallback positions exist, and what was offered followed by the hosts at
+the positions still to come is a subsequence of the hosts of the snapshot `P` -/
+def PlainInv (P : List Host) (it : LIter) : Prop :=
+  it.plain = true ∧ it.q1 = [] ∧ it.q2 = [] ∧ ∃ ps, it.fb = some ps ∧ (it.given ++ ps.filterMap id).Sublist P
+
+theorem PlainInv_next (P : List Host) (t : TA) (up : Nat → Bool) (it : LIter) (hi : PlainInv P it) :
+    PlainInv P (t.nextL up it).2.1 := by
+  obtain ⟨h1, h2, h3, ps, h4, h5⟩ := hi
+  obtain ⟨given, q1, q2, fb, plain⟩ := it
+  simp only at h1 h2 h3 h4 h5
+  subst h1 h2 h3 h4
+  simp only [TA.nextL, List.dropWhile_nil, if_true]
+  split
+  · rename_i y rest hs
+    refine ⟨rfl, rfl, rfl, rest, rfl, ?_⟩
+    have := scanPos_nil_sub up ps rest y hs
+    simp only [List.append_assoc, List.singleton_append]
+    exact (List.Sublist.append_left this given).trans h5
+  · rename_i e rest hne hs
+    refine ⟨rfl, rfl, rfl, rest, rfl, ?_⟩
+    have := scanPos_rest_sub up [] ps
+    rw [hs] at this
+    exact (List.Sublist.append_left this given).trans h5
+
+theorem runScan_true (l : List (Option Host)) (h : (runScan (fun _ => true) l).crashed = false) :
+    (runScan (fun _ => true) l).offered = l.filterMap id := by
+  induction l with
+  | nil => rfl
+  | cons a t ih =>
+    cases a with
+    | none => simp [runScan] at h
+    | some y =>
+      simp only [runScan, if_true] at h ⊢
+      simp only [List.filterMap_cons, id_eq]
+      rw [ih h]
+
+/-- below the counter bound the hosts at the positions of the fallback policy's next iterator are pairwise different -/
+theorem positions_nodup (p : Pol) (hp : Inv p) (hb : Pol.below p) : (p.positions.filterMap id).Nodup := by
+  have hs := pickScan_small p (fun _ => true) hb
+  have hc : (runScan (fun _ => true) p.positions).crashed = false := by
+    have : (p.pickScan (fun _ => true)).crashed = false := by rw [hs]
+    exact this
+  have ho : (runScan (fun _ => true) p.positions).offered = p.pickSeq (fun _ => true) := by
+    have : (p.pickScan (fun _ => true)).offered = p.pickSeq (fun _ => true) := by rw [hs]
+    exact this
+  rw [← runScan_true _ hc, ho]
+  exact pickSeq_nodup p hp _
+
+theorem lazy_routed_nodup (calls : List (TA × (Nat → Bool))) :
+    ∀ it : LIter, it.plain = false → LzInv it → LzInv (calls.foldl (fun it c => (c.1.nextL c.2 it).2.1) it) := by
+  induction calls with
+  | nil => intro it _ hi; exact hi
+  | cons c r ih =>
+    intro it hpl hi
+    exact ih _ ((nextL_plain c.1 c.2 it).trans hpl) (LzInv_next c.1 c.2 it hpl hi)
+
+theorem lazy_plain_inv (P : List Host) (calls : List (TA × (Nat → Bool))) :
+    ∀ it : LIter, PlainInv P it → PlainInv P (calls.foldl (fun it c => (c.1.nextL c.2 it).2.1) it) := by
   induction calls with
   | nil => intro it hi; exact hi
-  | cons c r ih => intro it hi; exact ih _ (LzInv_next c.1 c.2 it hi)
+  | cons c r ih => intro it hi; exact ih _ (PlainInv_next P c.1 c.2 it hi)
+
+/-- NO HOST TWICE, whatever happens between the calls: an iterator opened by `Pick` in ANY policy state `t0` on a replica
+list without duplicates (tables with duplicate-free lists, the shuffle a permutation), then called any number of times,
+EVERY call in an arbitrary policy state and under an arbitrary up/down assignment of the host objects (any
+interleaving with topology calls, state changes and other iterators), never offers a host twice. (For a query handed
+to the fallback policy as it is the iterator is `roundRobbin`'s own - no `used` map -: there the hosts at the positions
+of its one snapshot must be pairwise different, which `positions_nodup` gives below the counter bound of KF-C11-3.) -/
+theorem C11_lazy_iterator_no_host_twice (t0 : TA) (σ : List Host → List Host) (hσ : ∀ l, (σ l).Perm l)
+    (rk : Option (Nat × Nat)) (hrep : ∀ e ∈ t0.replicas, ∀ f ∈ e.2, f.2.Nodup)
+    (hpos : (t0.pol.positions.filterMap id).Nodup) (calls : List (TA × (Nat → Bool))) :
+    (calls.foldl (fun it c => (c.1.nextL c.2 it).2.1) (t0.openL σ rk).2).given.Nodup := by
+  have plainCase : (t0.openL σ rk).2 = ⟨[], [], [], some t0.pol.positions, true⟩ →
+      (calls.foldl (fun it c => (c.1.nextL c.2 it).2.1) (t0.openL σ rk).2).given.Nodup := by
+    intro e
+    rw [e]
+    have h0 : PlainInv (t0.pol.positions.filterMap id) ⟨[], [], [], some t0.pol.positions, true⟩ :=
+      ⟨rfl, rfl, rfl, t0.pol.positions, rfl, by simp⟩
+    obtain ⟨_, _, _, ps, _, hsub⟩ := lazy_plain_inv _ calls _ h0
+    exact (List.nodup_append.mp (hsub.nodup hpos)).1
+  cases rk with
+  | none => exact plainCase rfl
+  | some kt =>
+    obtain ⟨ks, tok⟩ := kt
+    cases hr : t0.replicasFor ks tok with
+    | noRing => exact plainCase (by simp only [TA.openL, hr])
+    | emptyRing => exact plainCase (by simp only [TA.openL, hr])
+    | hosts l ft =>
+      have hreps : l.Nodup := replicasFor_nodup t0 hrep ks tok l ft hr
+      have hreps' : (if (ft && t0.shuffle) = true then σ l else l).Nodup := by
+        split
+        · exact (hσ l).nodup_iff.mpr hreps
+        · exact hreps
+      have hn := taHead_nodup t0.pol.tier t0.pol.maxTier (fun _ => true) t0.nonlocal _ hreps'
+      have h1 : (t0.openL σ (some (ks, tok))).2.plain = false := by simp only [TA.openL, hr]
+      have h2 : LzInv (t0.openL σ (some (ks, tok))).2 := by
+        unfold LzInv
+        simp only [TA.openL, hr, List.nil_append]
+        exact hn
+      exact (List.nodup_append.mp (lazy_routed_nodup calls _ h1 h2)).1
 
 /-- non-vacuity, and what the eager model cannot say: replicas a (local rack), c; iterator opened with everything up;
 a is returned; then c goes DOWN before the second call and d before the third: neither is offered although both were
@@ -296,8 +415,11 @@ theorem pending_next (t : TA) (up : Nat → Bool) (it : LIter) (h : Host) (hu : 
         simp only
         rcases hpos with hg | hm
         · exact Or.inl (List.mem_append_left _ hg)
-        · rcases scanPos_host_rest up it.given _ _ _ hs h hm hu with e | e | e
-          · exact Or.inl (List.mem_append_left _ e)
+        · rcases scanPos_host_rest up _ _ _ _ hs h hm hu with e | e | e
+          · refine Or.inl (List.mem_append_left _ ?_)
+            split at e
+            · cases e
+            · exact e
           · exact Or.inl (by rw [e]; simp)
           · exact Or.inr (Or.inr (Or.inr (Or.inl ⟨rest, rfl, e⟩)))
       · rename_i e rest hne hs
@@ -312,7 +434,10 @@ theorem pending_next (t : TA) (up : Nat → Bool) (it : LIter) (h : Host) (hu : 
           have hg : h ∈ it.given := by
             rcases hpos with hg | hm
             · exact hg
-            · exact scanPos_done up it.given _ _ hs h hm hu
+            · have e := scanPos_done up _ _ _ hs h hm hu
+              split at e
+              · cases e
+              · exact e
           exact ⟨Or.inl hg, fun _ => hg⟩
 
 /-- COMPLETENESS WHILE STATES AND LISTS CHANGE: an iterator (any iterator `Pick` can return: `fb = none`, or its
